@@ -225,6 +225,18 @@ static void h_op(void)
     out_weights(msa, st);
     esl_msa_Destroy(msa);
   }
+  else if (!strcmp(op, "multi")) {   /* several weighting calls on ONE msa object; the last one decides the weights */
+    ESL_MSA *msa = build_msa(); int st = eslOK; const char *q = h_arg("seq");
+    if (!msa || !q) { esl_msa_Destroy(msa); h_out("bad-op"); return; }
+    for (; *q && st == eslOK; q++) {
+      if      (*q == 'p') st = esl_msaweight_PB(msa);
+      else if (*q == 'g') st = esl_msaweight_GSC(msa);
+      else if (*q == 'b') st = esl_msaweight_BLOSUM(msa, h_argbits("maxid"));
+      else { esl_msa_Destroy(msa); h_out("bad-op"); return; }
+    }
+    out_weights(msa, st);
+    esl_msa_Destroy(msa);
+  }
   else if (!strcmp(op, "pbadv")) {
     ESL_MSA *msa = build_msa(); int st;
     ESL_MSAWEIGHT_CFG *cfg; ESL_MSAWEIGHT_DAT *dat;
